@@ -2,7 +2,7 @@
 import ast
 
 from ..loader import AnalysisError, attr_path, src, walk_no_nested_defs, norm_stmt, call_name
-from ..symx import SymX, show, C, TRUE, FALSE, simp, is_const, mk_mul
+from ..symx import SymX, show, C, TRUE, FALSE, simp, is_const, mk_mul, is_term
 from . import C08
 
 EXPLANATION = (
@@ -86,7 +86,7 @@ def C08_sub(t):
 
     def walk(x):
         if isinstance(x, tuple):
-            if x and isinstance(x[0], str):
+            if is_term(x):
                 out.append(x)
             for y in x:
                 walk(y)
